@@ -134,8 +134,10 @@ func c12Run(c c12Case) Verdict {
 	probes := []c12Probe{
 		{"binarymime", []string{"MAIL FROM:<a@b> BODY=BINARYMIME", "RSET"}, []expect{yes(c.BinaryMIME, "BINARYMIME"), {Code: 250}}},
 		{"smtputf8", []string{"MAIL FROM:<a@b> SMTPUTF8", "RSET"}, []expect{yes(c.UTF8, "SMTPUTF8"), {Code: 250}}},
-		{"dsn-mail", []string{"MAIL FROM:<a@b> RET=HDRS ENVID=abc", "RSET"}, []expect{yes(c.DSN, "DSN"), {Code: 250}}},
-		{"dsn-rcpt", []string{"MAIL FROM:<a@b>", "RCPT TO:<c@d> NOTIFY=SUCCESS ORCPT=rfc822;c@d", "RSET"}, []expect{{Code: 250}, yes(c.DSN, "DSN"), {Code: 250}}},
+		{"dsn-ret", []string{"MAIL FROM:<a@b> RET=HDRS", "RSET"}, []expect{yes(c.DSN, "DSN RET"), {Code: 250}}},
+		{"dsn-envid", []string{"MAIL FROM:<a@b> ENVID=abc", "RSET"}, []expect{yes(c.DSN, "DSN ENVID"), {Code: 250}}},
+		{"dsn-notify", []string{"MAIL FROM:<a@b>", "RCPT TO:<c@d> NOTIFY=SUCCESS", "RSET"}, []expect{{Code: 250}, yes(c.DSN, "DSN NOTIFY"), {Code: 250}}},
+		{"dsn-orcpt", []string{"MAIL FROM:<a@b>", "RCPT TO:<c@d> ORCPT=rfc822;c@d", "RSET"}, []expect{{Code: 250}, yes(c.DSN, "DSN ORCPT"), {Code: 250}}},
 		{"rrvs", []string{"MAIL FROM:<a@b>", "RCPT TO:<c@d> RRVS=2014-04-03T23:01:00Z", "RSET"}, []expect{{Code: 250}, yes(c.RRVS, "RRVS"), {Code: 250}}},
 		{"8bitmime", []string{"MAIL FROM:<a@b> BODY=8BITMIME", "RSET"}, []expect{{Code: 250}, {Code: 250}}},
 		{"chunking", []string{"MAIL FROM:<a@b>", "RCPT TO:<c@d>", "BDAT 2 LAST\r\nhi"}, []expect{{Code: 250}, {Code: 250}, {Code: 250}}},
@@ -309,7 +311,7 @@ func TestC12(t *testing.T) {
 		if c.TLS == "implicit" && rapid.Bool().Draw(rt, "upgraded") {
 			c.TLS = "upgraded"
 		}
-		c.Order = rapid.Permutation(seqInts(12)).Draw(rt, "order")
+		c.Order = rapid.Permutation(seqInts(14)).Draw(rt, "order")
 		return c
 	})
 }
